@@ -35,6 +35,11 @@ OUTPUTS = {
         "XSHERANC_total": [("y", 0.3, 50.0, 0.4), ("y", 0.01, 8.0, 0.9), ("y", 0.1, 50.0, 0.1), ("y", 0.2, 20.0, 0.5), ("y", 0.02, 8.0, 0.3), ("y", 0.5, 90.0, 0.7), ("y", 0.05, 12.0, 0.2)],
         "F3_total": [("x", 0.6, 90.0), ("x", 0.3, 30.0), ("x", 0.1, 10.0), ("x", 0.01, 5.0)],
     }),
+    # sparsity that differs between the points of one observable (first point all zero: below the flavour threshold / x = 1) combined with switched-off scale variations
+    "sparse_ren_off": dict(cell={"scheme": "ZM-VFNS", "process": "NC", "pto": 2, "theory": {"RenScaleVar": False}}, obs={
+        "F2_charm": [("x", 0.1, 2.0), ("x", 0.1, 30.0), ("x", 0.3, 90.0)], "FL_total": [("x", 1.0, 30.0), ("x", 0.1, 30.0)], "F3_bottom": [("x", 0.3, 10.0), ("x", 0.3, 90.0)]}),
+    "sparse_fact_off": dict(cell={"scheme": "ZM-VFNS", "process": "CC", "pto": 1, "theory": {"FactScaleVar": False}}, obs={
+        "F2_charm": [("x", 0.1, 2.0), ("x", 0.1, 30.0)], "XSCHORUSCC_charm": [("y", 0.1, 2.0, 0.5), ("y", 0.1, 30.0, 0.5)], "F2_total": [("x", 1.0, 30.0), ("x", 0.3, 2.0)]}),
     "sv_off": dict(cell={"scheme": "FFNS4", "process": "EM", "pto": 2, "theory": {"RenScaleVar": False, "FactScaleVar": False}}, obs={"FL_bottom": [("x", 0.01, 300.0)]}),
 }
 OPS = ["yaml", "tar", "yamlfile"]
@@ -46,7 +51,7 @@ RULE = (
     "non-trivial = word length >= 2 or the output has a special shape; distinct_outcomes = distinct typed skeletons reached"
 )
 ASSUMPTIONS = [
-    "outputs are the 12 listed ones (incl. one with 3-7 points per observable in cyclic Q2 disorder with ties and a repeated point) (incl. one with all ten cross-section kinds) on grids G6/L7; words up to length 3 (quick: letters yaml,tar) / 4 (thorough: yaml,tar,yamlfile up to 3, yaml,tar at 4)",
+    "outputs are the 14 listed ones (two of them with a first point whose blocks are all zero while later points are not, with one scale variation switched off) (incl. one with 3-7 points per observable in cyclic Q2 disorder with ties and a repeated point) (incl. one with all ten cross-section kinds) on grids G6/L7; words up to length 3 (quick: letters yaml,tar) / 4 (thorough: yaml,tar,yamlfile up to 3, yaml,tar at 4)",
     "cards are compared by value after normalising numpy arrays/scalars and tuples to lists/builtins (the serialisation is not required to preserve container types of the card)",
     "a None observable is produced by assigning None after the run (the runner itself never produces one)",
 ]
